@@ -386,6 +386,33 @@ def cmp_oracle(case):
         want = "Greater" if o > 0 else "Less"
         if impl.split()[:1] != [want]:
             out.append((i, "events at one point ordered against the exact orientation: got %s, the exact order is %s" % (impl[:20], want)))
+    # `pyseg k`: the vertical order of two segments at the abscissa where the later one starts, wherever that
+    # order is strict (exact rational arithmetic): compare_segments must say the lower one is below
+    for i, ch in enumerate(case.checks):
+        if not ch.startswith("pyseg "):
+            continue
+        k = ch.split()[1]
+        t = case.reqs.get(k, "").split()
+        if len(t) != 17 or t[0] != "CMPSEG":
+            continue
+        P1 = (num.dec(t[3]), num.dec(t[4])); A1 = (num.dec(t[8]), num.dec(t[9]))
+        P2 = (num.dec(t[10]), num.dec(t[11])); A2 = (num.dec(t[15]), num.dec(t[16]))
+        x0 = max(P1[0], P2[0])
+        if x0 > min(A1[0], A2[0]):
+            continue
+        def span(P, A):
+            if P[0] == A[0]:
+                return (min(P[1], A[1]), max(P[1], A[1]))
+            y = P[1] + (A[1] - P[1]) * (x0 - P[0]) / (A[0] - P[0])
+            return (y, y)
+        lo1, hi1 = span(P1, A1)
+        lo2, hi2 = span(P2, A2)
+        want = "Less" if hi1 < lo2 else "Greater" if hi2 < lo1 else None
+        if want is None:
+            continue
+        got = case.impl.get(k, "").split()[:1]
+        if got and got[0] in ("Less", "Greater", "Equal") and got[0] != want:
+            out.append((i, "compare_segments puts the segments in the wrong vertical order at x = %s: got %s, the exact order is %s" % (x0, got[0], want)))
     # `pyanti k1 k2`: compare_segments(a, b) and compare_segments(b, a) are opposite wherever the event order
     # of the two left events is antisymmetric (`C15_compareSegments_antisymmetric`): not for two collinear
     # segments of one operand starting in one point
@@ -558,6 +585,8 @@ def order_cases(rng, n):
                 ka = c.run("CMPSEG f64 0 %s %s" % (e1, e2))
                 kb = c.run("CMPSEG f64 0 %s %s" % (e2, e1))
                 c.check("pyanti %d %d" % (ka, kb))
+                c.check("pyseg %d" % ka)
+                c.check("pyseg %d" % kb)
             p, a, b = _near_collinear_events(rng)
             for (s1, s2) in ((True, True), (True, False)):
                 k1 = c.run("CMPEV f64 %s %s" % (_event(p, a, s1, 1), _event(p, b, s2, 2)))
@@ -587,7 +616,39 @@ def order_cases(rng, n):
             ka = c.run("CMPSEG f64 0 %s %s" % (_event(a, b, s1, 2), _event(cc, d, s2, cid2)))
             kb = c.run("CMPSEG f64 0 %s %s" % (_event(cc, d, s2, cid2), _event(a, b, s1, 2)))
             c.check("pyanti %d %d" % (ka, kb))
+            c.check("pyseg %d" % ka)
+            c.check("pyseg %d" % kb)
             c.run("CMPSEG f64 1 %s" % _event(a, b, s1, 2))
+        for _ in range(8):
+            # T-junctions: an end point of one segment in the interior of the other
+            (p1, q1), (p2, q2) = _tjunction_pair(rng, "f64")
+            if not _before(p1, q1):
+                p1, q1 = q1, p1
+            if not _before(p2, q2):
+                p2, q2 = q2, p2
+            s1, s2 = rng.random() < 0.5, rng.random() < 0.5
+            ka = c.run("CMPSEG f64 0 %s %s" % (_event(p1, q1, s1, 1), _event(p2, q2, s2, 2)))
+            kb = c.run("CMPSEG f64 0 %s %s" % (_event(p2, q2, s2, 2), _event(p1, q1, s1, 1)))
+            c.check("pyanti %d %d" % (ka, kb))
+            c.check("pyseg %d" % ka)
+            c.check("pyseg %d" % kb)
+        for _ in range(6):
+            # collinear segments of one operand apart from each other (vertical ones included), with the
+            # contour ids in either order: never on the sweep line together, but the order is still defined
+            d = rng.choice([(0, 1), (0, 1), (1, 0), (1, 1), (2, -1)])
+            o = (rng.randint(-3, 3), rng.randint(-3, 3))
+            ts = sorted(rng.sample(range(-4, 9), 4))
+            mk = lambda tt: (o[0] + tt * d[0], o[1] + tt * d[1])
+            sa, sb = (mk(ts[0]), mk(ts[1])), (mk(ts[2]), mk(ts[3]))
+            sa = sa if _before(*sa) else (sa[1], sa[0])
+            sb = sb if _before(*sb) else (sb[1], sb[0])
+            subj = rng.random() < 0.5
+            c1, c2 = rng.choice([(1, 2), (2, 1), (1, 1)])
+            ka = c.run("CMPSEG f64 0 %s %s" % (_event(sa[0], sa[1], subj, c1), _event(sb[0], sb[1], subj, c2)))
+            kb = c.run("CMPSEG f64 0 %s %s" % (_event(sb[0], sb[1], subj, c2), _event(sa[0], sa[1], subj, c1)))
+            c.check("pyanti %d %d" % (ka, kb))
+            c.check("pyseg %d" % ka)
+            c.check("pyseg %d" % kb)
         cases.append(c)
     return cases
 
@@ -1120,6 +1181,28 @@ def c03_large_children(tier):
                     sc, n, " on a 2 MiB thread" if thr else "", rc, err.strip()[-120:]), scenario=["stack", sc, str(n)] + (["thread"] if thr else [])))
     findings.extend(_dev_stack_jobs([]))
     return findings, {"large_children": rows}
+
+
+def large_result_children(tier):
+    """large operations whose result is known in closed form (more than 2^16 result events each): the child
+    checks ring closure, vertex provenance, polygon / interior ring counts and the area itself
+    (`verify_large` in harness/src/stack.rs) and exits with `LARGE-CHECK ...` when one fails"""
+    findings = []
+    rows = []
+    sizes = (20000, 40000) if tier == "quick" else (20000, 40000, 100000, 300000)
+    jobs = [(sc, n) for sc in ("x-union", "x-bars", "x-holes") for n in sizes if not (sc == "x-holes" and n > 40000)]
+    from concurrent.futures import ThreadPoolExecutor
+    def run(j):
+        sc, n = j
+        return j, _child([runner.harness_bin(False), "stack", sc, str(n)], 1800)
+    with ThreadPoolExecutor(max_workers=6) as ex:
+        for (sc, n), (rc, out, err) in ex.map(run, jobs):
+            rows.append({"scenario": sc, "size": n, "exit": rc})
+            if rc != 0 or "DONE" not in out:
+                msg = [l for l in out.splitlines() if l.startswith("LARGE-CHECK")]
+                findings.append(_F("O", "large input: the result of %s with size %d is wrong: %s" % (
+                    sc, n, msg[0] if msg else "exit status %s (%s)" % (rc, err.strip()[-120:])), scenario=["stack", sc, str(n)]))
+    return findings, {"large_results": rows}
 
 
 # ---------------------------------------------------------------------------------------------
